@@ -2,9 +2,22 @@
 import conccheck
 
 PID = 'C08'
-THEOREMS = []
-IMPORTS = ['LcdbModel.Props.C08']
-TARGETS = ['LcdbModel.Props.C08']
+THEOREMS = [
+    'Lcdb.C08.lastSeq_committed',
+    'Lcdb.C08.committed_grows',
+    'Lcdb.C08.commit_once',
+    'Lcdb.C08.fifo_order',
+    'Lcdb.C08.realtime_order',
+    'Lcdb.C08.reader_linearizable',
+    'Lcdb.C08.reads_monotone',
+    'Lcdb.C08.reader_sees_write',
+    'Lcdb.C08.final_state',
+    'Lcdb.C08.sync_not_in_nonsync_group',
+    'Lcdb.C04Conc.batch_atomic_for_readers',
+    'Lcdb.C04Conc.group_preserves_batches',
+]
+IMPORTS = ['LcdbModel.Props.C08', 'LcdbModel.Props.C04Conc']
+TARGETS = ['LcdbModel.Props.C08', 'LcdbModel.Props.C04Conc']
 OWN = set('linearizable,monotonic,snapshot,scan,final,write,read'.split(','))
 
 
